@@ -231,6 +231,14 @@ def gen_fock(r, seed, hbar, what):
         s["dark"] = [rnd(r, 0.1, 1.5) for _ in ms] if (s["select"] is None and r.random() < 0.3) else None
     else:
         s["mode"] = r.randrange(n)
+        ra = random.Random("c06a:%d" % seed)
+        if ra.random() < 0.5:
+            # coherences between number states: the x_phi and x_-phi distributions of the measured mode differ (a state diagonal in the number
+            # basis cannot tell the two apart).  The reference works from the backend's own (truncated) pre-measurement tensor.
+            for _ in range(ra.randint(1, 2)):
+                g = ra.choice(["Dgate", "Dgate", "Sgate", "Zgate"])
+                prep.append({"op": g, "p": {"Dgate": [rnd(ra, 0.2, 0.6), rnd(ra, 0.3, 6.0)], "Sgate": [rnd(ra, 0.15, 0.4), rnd(ra, 0.3, 6.0)], "Zgate": [rnd(ra, -0.8, 0.8)]}[g],
+                             "m": [s["mode"]]})
         s["phi"] = r.choice([0.0, rnd(r, -3, 3), rnd(r, -3, 3)])
         s["x"] = r.choice([0.0, 0.0, rnd(r, -2.5, 2.5), rnd(r, -1, 1)])
         s["select"] = r.random() < 0.3
